@@ -400,6 +400,35 @@ class NotIf(Sub):
         return None
 
 
+class OneCellArgs(Sub):
+    name = 'c12.one_cell_args'
+    rule = ('a one-cell range ([[v]]), a one-item array ([v]) and a value nested three deep ([[[v]]]) given where ONE value is expected '
+            'is that value: NOT, IF, IFS, SWITCH (target), the five type predicates, ISNONTEXT, ISERR, ISNA, ISEVEN, ISODD and the '
+            'flag of TEXTJOIN over 11 values incl. blank and an error value give what they give for the bare value (differential '
+            'against the scalar evaluation); non-trivial = all')
+    min_cases = 30
+    min_nontrivial = 30
+    FORMS = ['NOT(xa)', 'IF(xa,"then","else")', 'IFS(xa,"first",TRUE,"second")', 'SWITCH(xa,5,"five",TRUE,"true","other")', 'ISNUMBER(xa)',
+             'ISTEXT(xa)', 'ISNONTEXT(xa)', 'ISLOGICAL(xa)', 'ISBLANK(xa)', 'ISERROR(xa)', 'ISERR(xa)', 'ISNA(xa)', 'ISEVEN(xa)', 'ISODD(xa)',
+             'TEXTJOIN("-",xa,"a",,"b")', 'IFS(FALSE,1,xa,2,TRUE,3)']
+    VALS = [0, 5, 4, -2.5, True, False, None, '', 'abc', {'$err': '#DIV/0!'}, {'$err': '#N/A'}]
+
+    def cases(self, tier, unit):
+        for fi in range(len(self.FORMS)):
+            for vi in range(len(self.VALS)):
+                yield [fi, vi]
+
+    def check(self, env, case):
+        f, v = self.FORMS[case[0]], env.dec(self.VALS[case[1]])
+        env.nt()
+        base = env.evo(f, vars={'xa': v})
+        for w, how in (([[v]], 'a one-cell range'), ([v], 'a one-item array'), ([[[v]]], 'nested three deep')):
+            o = env.evo(f, vars={'xa': w})
+            if o != base:
+                return fail('%s with xa = %r (%s) gives %r, with the bare value %r it gives %r' % (f, w, how, o, v, base), base, o)
+        return None
+
+
 SENT_IFS = [['va', 'vb', 'vc', 'vd'], [False, 0, 'vc', 7], [None, '', 0.0, None]]       # the last: blanks and other falsy values
 
 
@@ -993,4 +1022,4 @@ class LogicScale(Sub):
         return out
 
 
-SUBS = [ConnFlat(), ConnNested(), NotIf(), Ifs(), Switch(), ErrorConditions(), Predicates(), Parity(), LogicScale()]
+SUBS = [ConnFlat(), ConnNested(), NotIf(), OneCellArgs(), Ifs(), Switch(), ErrorConditions(), Predicates(), Parity(), LogicScale()]
